@@ -23,8 +23,10 @@
 (*  {"ev":"crashed","msg","where"}  the dispatcher process died (a panic in *)
 (*                         the code under test): the recorded prefix is    *)
 (*                         judged, the crash itself is reported separately *)
-(*  {"ev":"stubbug","c"}   the stub VM noticed two processes of c on one VM *)
-(*                         (never allowed)                                  *)
+(*  {"ev":"stubbug","c"}   the stub VM said "StubDriver bug or caller bug"  *)
+(*                         (pid mismatch at exit): ambiguous by its own     *)
+(*                         words, not judged; a second process on the same  *)
+(*                         VM is judged through procsnap (others has w)     *)
 (* Containers beyond nc and instances beyond nw are inert.                 *)
 (***************************************************************************)
 EXTENDS DispatchContract, TraceIO
@@ -34,6 +36,7 @@ Range(s) == {s[i] : i \in DOMAIN s}
 \* identity sets for the end-to-end judge (cfg: Ctrs <- BigCtrs, Wk <- BigWk)
 BigCtrs == 1 .. 520
 BigWk == 0 .. 1000
+HugeWk == 0 .. 6000
 MidCtrs == 1 .. 130
 MidWk == 0 .. 300
 
@@ -60,12 +63,15 @@ TraceNext ==
     \/ IsEvent("startcall") /\ StartCall(Ev.c, Bad, Ev.qs, Ev.qp)
     \/ IsEvent("procstart") /\ ProcStart(Ev.c, Ev.w)
     \/ IsEvent("procsnap") /\ ProcStartSnap(Ev.c, Ev.w, Range(Ev.others))
-    \/ IsEvent("startfailed") /\ StartFailed(Ev.c)
+    \* end to end a failed "crunch-run --detach" does not void the decision (the worker may try
+    \* again on the same instance); at scheduler level the simulated exec is the decision's only one
+    \/ IsEvent("startfailed") /\ (IF mode = "sound" THEN Other ELSE StartFailed(Ev.c))
     \/ IsEvent("startrefused") /\ StartFailed(Ev.c)
     \/ IsEvent("exit") /\ ProcExit(Ev.c, Ev.w)
     \/ IsEvent("vmgone") /\ VmGone(Ev.w)
     \/ IsEvent("restart") /\ (IF mode = "sound" THEN SoftRestart ELSE Restart)
-    \/ (IsEvent("kill") \/ IsEvent("create") \/ IsEvent("note") \/ IsEvent("final") \/ IsEvent("crashed") \/ IsEvent("broken")) /\ Other
+    \/ (IsEvent("kill") \/ IsEvent("create") \/ IsEvent("note") \/ IsEvent("final") \/ IsEvent("crashed") \/ IsEvent("broken")
+        \/ IsEvent("stubbug")) /\ Other
 
 TraceSpec == TraceInit /\ [][TraceNext]_<<dcvars, l>>
 =============================================================================
